@@ -237,6 +237,23 @@ def totalDerivatives (jac : String → String → Option Mat) (sz : String → N
     | _ => directMode fs nVars nRes dresDx dresDy dfunDx dfunDy
   out.map (fun l => l.map (fun (f, m) => (f, splitJac sz vs m)))
 
+/-! ### Sizes of the differentiation variables (`compute_sizes`, round 3) -/
+
+/-- Number of columns of a Jacobian block (`shape[1]`). -/
+def width (m : Mat) : Nat := (m.headD []).length
+
+/-- `JacobianAssembly.compute_sizes` for one differentiation variable `v`.
+    `held`: the Jacobian blocks `((f, x), M)` the disciplines hold after their linearization, in
+    discipline order; `values`: the current input values `(name, value)` of the disciplines, in
+    discipline order.  The size is the number of columns of the first block with respect to `v`;
+    when no discipline has been linearized with respect to `v` (no requested function depends on it)
+    it is the length of the current VALUE of `v`.  The grammar defaults are not an argument. -/
+def variableSize (held : List ((String × String) × Mat)) (values : List (String × List Rat))
+    (v : String) : Option Nat :=
+  match held.find? (fun b => b.1.2 == v) with
+  | some b => some (width b.2)
+  | none => (values.find? (fun e => e.1 == v)).map (fun e => e.2.length)
+
 /-! ### Exact rescaling of the variables (units)
 
 The same coupled system expressed in the variables `v' = w(v) · v` (`w(v) ≠ 0`, in the harness
